@@ -64,6 +64,13 @@ type caseRec struct {
 	in  *Input
 	doc *Node
 	o   *obs
+	// purity stream: distinct encodings of the credential after the calls
+	posts []*Node
+	// reuse-auth stream: previous list, encoding and kinds of the re-used slice
+	reuse bool
+	prev  *Node
+	enc   *Node
+	kinds []string
 }
 
 type drv struct {
@@ -645,8 +652,23 @@ func (d *drv) writeShards() error {
 		for i := lo; i < hi; i++ {
 			c := d.cases[i]
 			t.scan(c.doc)
+			if c.reuse {
+				t.scan(c.prev)
+				t.scan(c.enc)
+				cs = append(cs, fmt.Sprintf("CReuseAuth %d %s %s %s %s", i, c.prev.Coq(f), c.doc.Coq(f), c.enc.Coq(f), strList(f, c.kinds)))
+				d.rep.Case(name, i, c.in)
+				continue
+			}
 			t.scan(c.o.enc)
 			t.scan(c.o.mz)
+			if len(c.posts) > 0 {
+				var ps []string
+				for _, p := range c.posts {
+					t.scan(p)
+					ps = append(ps, p.Coq(f))
+				}
+				cs = append(cs, fmt.Sprintf("CPure %d %s [%s]", i, c.doc.Coq(f), strings.Join(ps, ";")))
+			}
 			var ob string
 			switch {
 			case c.o.decodeErr != "":
@@ -693,12 +715,11 @@ func (d *drv) dispatch(in *Input, rep *common.Report) *caseRec {
 	case "did":
 		return d.didCase(in, rep)
 	case "reuse-auth", "reuse-did", "dup-did", "reuse-cred":
-		d.reuseCase(in, rep)
-		return nil
+		return d.reuseCase(in, rep)
 	default:
 		rec := d.credCase(in, rep)
-		if in.Purity && rec != nil && rec.o.decodeErr == "" {
-			d.purityCase(in, rep)
+		if in.Purity && rec != nil && rec.o.decodeErr == "" && rec.o.encErr == "" {
+			rec.posts = d.purityCase(in, rep)
 		}
 		return rec
 	}
